@@ -98,16 +98,21 @@ class Emitter:
         file_ = b.get('file') or b.get('includedFrom', {}).get('file')
         lines.append('/* %s  [%s] */' % (f.qual, f.sig))
         lines.append('%s %s' % (crt, sig))
-        for key in ('requires_local', 'requires', 'assigns', 'frees', 'ensures'):
+        for key in ('requires_local', 'requires', 'assigns', 'assigns_local', 'frees', 'ensures', 'ensures_local'):
             for c in con.get(key, []):
-                lines.append('__CPROVER_%s(%s)' % ('requires' if key == 'requires_local' else key, c))
+                lines.append('__CPROVER_%s(%s)' % (key.replace('_local', ''), c))
         lines += ['{'] + ind(body) + ['}', '']
         if f.cname in lw.cfg.get('rec_twin', []):
             # the contract that stands in for (mutually) recursive calls: same clauses without the local shape
+            # (requires_local: shape of the enforced object; ensures_local / assigns_local: the stronger statement
+            # proved for the enforced node, about memory the caller's proof never dereferences; the twin's clauses
+            # are a subset of what is enforced, so the induction hypothesis is implied by the induction step;
+            # ensures_twin: a clause of the twin that the enforced function proves case by case, as ensures_local clauses
+            # guarded by the harness's case ghost, the cases being exhaustive)
             tw = ['%s %s' % (crt, sig.replace(f.cname + '(', f.cname + '__rec(', 1))]
-            for key in ('requires', 'assigns', 'frees', 'ensures'):
+            for key in ('requires', 'assigns', 'frees', 'ensures', 'ensures_twin'):
                 for c in con.get(key, []):
-                    tw.append('__CPROVER_%s(%s)' % (key, c))
+                    tw.append('__CPROVER_%s(%s)' % (key.replace('_twin', ''), c))
             self.twins[f.cname] = '\n'.join(tw) + ';'
         unused = set(k for k in con.get('loops', {}) if isinstance(k, int)) - ctx.used_loops
         if unused:
